@@ -152,7 +152,12 @@ pub fn oracle_encode(m: BiasMsg, es: &[Entry], on_grid: &[bool]) -> Result<&'sta
         if got.len() > capacity(m) {
             return Err((format!("c16:{}:over-capacity", n), format!("decoded {} entries", got.len())));
         }
-        if !pre {
+        // lists with duplicate (satellite, signal) keys are outside the round-trip precondition in its strict form, but the
+        // statement's "no entry silently dropped ... or lost to a count field that wrapped" (quantified over "any number of
+        // entries per satellite including more than 31") still applies when every signal is recognised and every satellite
+        // is in range: if the encoder accepts such a list, every entry must come back
+        let all_recognised = es.iter().all(|e| m.signals().iter().any(|(_, b, a)| *b == e.band && *a == e.attr)) && es.iter().all(|e| m == BiasMsg::M1230 || (e.sat as usize) < if m == BiasMsg::M1059 { 64 } else { 32 });
+        if !pre && !(all_recognised && m != BiasMsg::M1230) {
             return Ok("outside-precondition");
         }
         if got.len() != es.len() {
@@ -165,31 +170,28 @@ pub fn oracle_encode(m: BiasMsg, es: &[Entry], on_grid: &[bool]) -> Result<&'sta
         if m != BiasMsg::M1230 && got.windows(2).any(|w| w[0].sat > w[1].sat) {
             return Err((format!("c16:{}:not-grouped", n), format!("{}: decoded entries are not grouped by ascending satellite", n)));
         }
-        // multiset comparison on (sat, signal); bias exact on grid, within half a step (+ f32 slack) otherwise
+        // multiset comparison per (satellite, signal) key: quantisation is monotone, so sorting both sides by bias pairs each
+        // input with its own image even when a key occurs several times; on-grid biases must come back bit-exact, off-grid
+        // ones within half a step (+ f32 slack)
         let step = m.step();
-        let mut used = vec![false; got.len()];
-        for (i, e) in es.iter().enumerate() {
-            let mut found = false;
-            for (j, g) in got.iter().enumerate() {
-                if used[j] || g.sat != (if m == BiasMsg::M1230 { 0 } else { e.sat }) || g.band != e.band || g.attr != e.attr {
-                    continue;
-                }
-                let ok = if on_grid[i] {
+        let keyof = |e: &Entry| (if m == BiasMsg::M1230 { 0 } else { e.sat }, e.band, e.attr as u32);
+        let mut ins: Vec<(usize, &Entry)> = es.iter().enumerate().collect();
+        ins.sort_by(|a, b| keyof(a.1).cmp(&keyof(b.1)).then(a.1.bias.partial_cmp(&b.1.bias).unwrap_or(std::cmp::Ordering::Equal)));
+        let mut outs: Vec<&Entry> = got.iter().collect();
+        outs.sort_by(|a, b| keyof(a).cmp(&keyof(b)).then(a.bias.partial_cmp(&b.bias).unwrap_or(std::cmp::Ordering::Equal)));
+        for ((i, e), g) in ins.iter().zip(outs.iter()) {
+            let same_key = keyof(e) == keyof(g);
+            let ok = same_key
+                && if on_grid[*i] {
                     g.bias.to_bits() == e.bias.to_bits() || (g.bias == 0.0 && e.bias == 0.0)
                 } else {
                     let slack = 16.0 * 2f64.powi(-24) * ((e.bias as f64).abs() + step);
                     ((g.bias as f64) - (e.bias as f64)).abs() <= step / 2.0 + slack
                 };
-                if ok {
-                    used[j] = true;
-                    found = true;
-                    break;
-                }
-            }
-            if !found {
+            if !ok {
                 return Err((
                     format!("c16:{}:entry-changed", n),
-                    format!("{}: entry (satellite {}, signal {}{}, bias {}) has no counterpart after the round trip", n, e.sat, e.band, e.attr, e.bias),
+                    format!("{}: entry (satellite {}, signal {}{}, bias {}) has no counterpart after the round trip (closest: satellite {}, signal {}{}, bias {})", n, e.sat, e.band, e.attr, e.bias, g.sat, g.band, g.attr, g.bias),
                 ));
             }
         }
@@ -294,14 +296,35 @@ fn gen_entries(rng: &mut crate::rng::Rng, m: BiasMsg, shape: u64) -> (Vec<Entry>
             label = "small";
         }
         4 => {
-            // duplicate-heavy: many entries for one satellite (outside the precondition)
-            let n = (32 + rng.below(120)) as usize;
+            // duplicate-heavy: one satellite with many entries (any count up to the capacity, in particular 32..=390),
+            // alone or with a few other satellites, in ascending or scattered order
+            let n = match rng.below(4) {
+                0 => 32 + rng.below(120),
+                1 => 250 + rng.below(45),
+                _ => 1 + rng.below(390),
+            } as usize;
             let s = rng.below(sat_range) as u8;
+            let others = rng.below(4);
             for _ in 0..n.min(capacity(m)) {
                 let i = rng.below(sigs.len() as u64) as usize;
                 let (b, ok) = bias(rng);
-                es.push(Entry { sat: if rng.below(8) == 0 { rng.below(sat_range) as u8 } else { s }, band: sigs[i].1, attr: sigs[i].2, bias: b });
+                es.push(Entry { sat: s, band: sigs[i].1, attr: sigs[i].2, bias: b });
                 on_grid.push(ok);
+            }
+            for _ in 0..others {
+                if es.len() < capacity(m) {
+                    let i = rng.below(sigs.len() as u64) as usize;
+                    let (b, ok) = bias(rng);
+                    let pos = rng.below(es.len() as u64 + 1) as usize;
+                    let sat = rng.below(sat_range) as u8;
+                    let at = match rng.below(3) {
+                        0 => 0,
+                        1 => es.len(),
+                        _ => pos,
+                    };
+                    es.insert(at, Entry { sat, band: sigs[i].1, attr: sigs[i].2, bias: b });
+                    on_grid.insert(at, ok);
+                }
             }
             label = "duplicate-heavy";
         }
@@ -327,8 +350,8 @@ fn case_json(m: BiasMsg, es: &[Entry], on_grid: &[bool]) -> J {
 
 pub fn run(ctx: &Ctx, replay: Option<&J>) -> CheckResult {
     let rule = "typed lists for 1059 (satellites 0..63, 12 signals), 1065 (0..31, 4 signals), 1230 (4 signals): distinct (satellite, signal) pairs scattered through the list with 1..all \
-        satellites (incl. 60 and 64 of 64) and up to 390 entries, biases on the decoder's grid (bit-exact comparison) and off-grid in range (half-step tolerance), plus lists outside the \
-        precondition (one satellite with 32..150 entries, unrecognised signals, satellite 200); and hostile frames with maximal per-satellite counts. oracle: build is Err, or the frame \
+        satellites (incl. 60 and 64 of 64) and up to 390 entries, biases on the decoder's grid (bit-exact comparison) and off-grid in range (half-step tolerance), plus lists with duplicate keys (one satellite with 1..390 entries, alone or scattered among others: if accepted, no entry may be lost) and lists outside the \
+        precondition (unrecognised signals, satellite 200); and hostile frames with maximal per-satellite counts. oracle: build is Err, or the frame \
         decodes to the same variant with the same multiset of (satellite, signal, bias) grouped by ascending satellite; outside the precondition and for hostile frames: no panic and never \
         more entries than the capacity. non-trivial = >=2 satellites with interleaved entries, >=60 satellites, or a hostile frame; distinct = hash of the entry list / frame"
         .to_string();
